@@ -4,11 +4,11 @@
 use core::cmp::min;
 use std::fs;
 use std::fs::{File, OpenOptions, read, read_dir};
-use std::io::{BufWriter, Cursor, Seek, SeekFrom, Write};
+use std::io::{BufWriter, Cursor, Read, Seek, SeekFrom, Write};
 use std::path::{Path, PathBuf};
 
 use crate::ByteBuffer;
-use binrw::BinRead;
+use binrw::{BinRead, BinResult};
 use binrw::{BinWrite, binrw};
 use tracing::{debug, warn};
 
@@ -17,6 +17,23 @@ use crate::common_file_operations::{
     get_string_len, read_bool_from, read_string, write_bool_as, write_string,
 };
 use crate::sqpack::{read_data_block_patch, write_data_block_patch};
+
+/// Reads exactly `count` bytes, without reserving room for them before they have actually been read.
+#[binrw::parser(reader)]
+fn read_counted_bytes(count: u64) -> BinResult<Vec<u8>> {
+    let mut data = Vec::new();
+    reader.by_ref().take(count).read_to_end(&mut data)?;
+    if data.len() as u64 != count {
+        return Err(binrw::Error::Io(std::io::ErrorKind::UnexpectedEof.into()));
+    }
+    Ok(data)
+}
+
+/// Reads a string stored in exactly `count` bytes.
+#[binrw::parser(reader, endian)]
+fn read_counted_string(count: u64) -> BinResult<String> {
+    Ok(read_string(read_counted_bytes(reader, endian, (count,))?))
+}
 
 #[binrw]
 #[derive(Debug)]
@@ -137,8 +154,7 @@ struct DirectoryChunk {
     #[bw(calc = get_string_len(name) as u32)]
     name_length: u32,
 
-    #[br(count = name_length)]
-    #[br(map = read_string)]
+    #[br(parse_with = read_counted_string, args(name_length as u64))]
     #[bw(map = write_string)]
     name: String,
 }
@@ -204,7 +220,7 @@ struct SqpkAddData {
     #[br(map = | x : u32 | (x as u64) << 7 )]
     block_delete_number: u64,
 
-    #[br(count = block_number)]
+    #[br(parse_with = read_counted_bytes, args(block_number))]
     block_data: Vec<u8>,
 }
 
@@ -277,8 +293,7 @@ struct SqpkFileOperationData {
     #[brw(pad_after = 2)]
     expansion_id: u16,
 
-    #[br(count = path_length)]
-    #[br(map = read_string)]
+    #[br(parse_with = read_counted_string, args(path_length as u64))]
     #[bw(map = write_string)]
     path: String,
 }
